@@ -443,7 +443,7 @@ Proof.
   rewrite (sumZ_ext _ (fun a => q * Z.of_nat (count a rc) + ((- F) * ind (Nat.eqb a (t_signer t))
                                  + (F - Z.of_nat (length rc) * q) * ind (Nat.eqb a (e_collector E))))).
   - rewrite sumZ_plus, sumZ_plus, !sumZ_scale, sumZ_count, !sumZ_indicator by assumption.
-    apply mem_In in Hs, Hc. rewrite Hs, Hc. unfold ind. ring.
+    apply mem_In in Hs, Hc. rewrite Hs, Hc. unfold ind. clearbody q F. unfold addr in *. lia.
   - intro a. rewrite Hf. unfold pay_formula. fold rc q F. unfold ind.
     destruct (Nat.eqb a (t_signer t)), (Nat.eqb a (e_collector E)); lia.
 Qed.
@@ -514,8 +514,9 @@ Example payout_nonvacuous :
   delta ex_state (fst (step_tx ex_env ex_state ex_tx)) 7%nat 2%nat = 2 /\
   delta ex_state (fst (step_tx ex_env ex_state ex_tx)) 0%nat 2%nat = -1.
 Proof.
-  split; [simpl; auto|]. split; [split; [unfold PREC; simpl; lia|constructor]|].
-  split; [repeat constructor; simpl; lia|]. vm_compute. repeat split; reflexivity.
+  split; [unfold env_ok; simpl; auto|].
+  split; [split; [simpl; unfold PREC; lia|simpl; constructor]|].
+  split; [unfold fee_ok; simpl; repeat constructor; simpl; lia|]. vm_compute. repeat split; reflexivity.
 Qed.
 
 (** a stranger cannot register, the admin can, anyone can self-register a gov-admin contract *)
